@@ -1518,9 +1518,8 @@ func tagSchemaCase(ts *TagSchema) {
 	for i, x := range reg.Log {
 		if eff := effLimit(ts.Limit); x.Status == 200 && int64(x.BytesRead()) > eff {
 			sig := "over-read"
-			// known finding: a manifest GET without Docker-Content-Digest is read through a reader of
-			// limit+1 bytes (to tell an oversized body from a fitting one): exactly one byte too many,
-			// only for a body larger than the limit, and the listing fails
+			// (fixed finding over-read-digest-probe: the first version of 4dc7269 read limit+1 bytes of an
+			// oversized manifest body without Docker-Content-Digest; the signature stays mechanism-matched)
 			if x.Kind == 'M' && ts.NoDigest && int64(x.TotalLen) > eff && int64(x.BytesRead()) == eff+1 && err != nil && len(pages) == 0 {
 				sig = "over-read-digest-probe"
 			}
